@@ -895,7 +895,46 @@ impl<'a> Gen<'a> {
                 self.vars.push((v, t, true));
             }
         }
+        // join loops (main only): `for jr in join_iter(rows0, rows1)` whose body assigns several
+        // outer variables in one iteration (the per-element merge of environments)
+        let mut join_stmt: Option<String> = None;
+        if name == "main" && self.p.chance(1, 4) {
+            let vt = self.int_ty();
+            let (n0, n1) = (self.p.range(1, 3) as usize, self.p.range(1, 3) as usize);
+            let rt = |n: usize, g: &Gen| format!("[(u8, {}); {}]", tyname(&vt, g), n);
+            ps.push(format!("jrows0: {}", rt(n0, self)));
+            ps.push(format!("jrows1: {}", rt(n1, self)));
+            let nacc = self.p.range(2, 4) as usize;
+            let mut accs = vec![];
+            for _ in 0..nacc {
+                let v = self.fresh("acc");
+                let e = self.lit(&vt);
+                body.push(format!("    let mut {v} = {e};"));
+                self.vars.push((v.clone(), vt.clone(), true));
+                accs.push(v);
+            }
+            let mut order = accs.clone();
+            self.p.shuffle(&mut order);
+            let updates: Vec<String> = order
+                .iter()
+                .map(|a| {
+                    let rhs = match self.p.below(4) {
+                        0 => format!("{a} + ja"),
+                        1 => format!("{a} ^ jb"),
+                        2 => format!("({a} ^ ja) + jb"),
+                        _ => "ja - jb".to_string(),
+                    };
+                    format!("{a} = {rhs};")
+                })
+                .collect();
+            join_stmt = Some(format!("    for jr in join_iter(jrows0, jrows1) {{ let ((_, ja), (_, jb)) = jr; {} }}", updates.join(" ")));
+        }
+        let before = body.len();
         self.stmts(nstmts, depth, &mut body, "    ");
+        if let Some(js) = join_stmt {
+            let at = before + self.p.usize_below(body.len() - before + 1);
+            body.insert(at, js);
+        }
         let r = self.expr_top(&ret, depth);
         body.push(format!("    {r}"));
         self.vars = saved_vars;
